@@ -3,6 +3,7 @@ package main
 import (
 	"fmt"
 	"go/constant"
+	"go/token"
 	"go/types"
 	"sort"
 	"strings"
@@ -69,6 +70,9 @@ func triggerEventB(in ssa.Instruction, names map[int64]string, bind map[*ssa.Par
 		if mi, ok := a.(*ssa.MakeInterface); ok {
 			a = mi.X
 		}
+	}
+	if tableElemSourceB(a, names, bind) != nil {
+		return "" // fired from a constant table: accounted for where the loop over the table starts
 	}
 	if k, ok := constInt(a); ok {
 		if n, ok := names[k]; ok {
@@ -185,7 +189,10 @@ func discoverScopeRoles(c *Ctx) *scopeRoles {
 	}
 	names := eventConstNames(c.P)
 	deepEv := expandHelpers(names, func(in ssa.Instruction, bind map[*ssa.Parameter]ssa.Value) string {
-		return triggerEventB(in, names, bind)
+		if ev := triggerEventB(in, names, bind); ev != "" {
+			return ev
+		}
+		return tableLoopWord(in, names, bind)
 	})
 	for _, ci := range Calls(closeF) {
 		g := ci.Static
@@ -249,6 +256,9 @@ func rulesC11(c *Ctx) {
 	classifyB := func(in ssa.Instruction, bind map[*ssa.Parameter]ssa.Value) string {
 		if ev := triggerEventB(in, names, bind); ev != "" {
 			return ev
+		}
+		if w := tableLoopWord(in, names, bind); w != "" {
+			return w
 		}
 		if st, ok := in.(*ssa.Store); ok {
 			if fa, ok := st.Addr.(*ssa.FieldAddr); ok && fieldName(fa) == "scope.Scope."+sro.closed {
@@ -333,6 +343,32 @@ func rulesC11(c *Ctx) {
 			isRb := strings.Contains(ev, "Rollback")
 			isCm := strings.Contains(ev, "Commit")
 			if isRb && isCm {
+				// a constant table selected by a phi: each selecting edge must agree with the Wait result
+				if call, ok := in.(*ssa.Call); ok {
+					var tabs []eventTable
+					for _, a := range call.Call.Args {
+						if t := eventTablesOf(a, names); len(t) > 1 {
+							tabs = t
+						}
+					}
+					if len(tabs) > 1 {
+						for _, t := range tabs {
+							if t.pred == nil {
+								continue
+							}
+							n2++
+							fs := factsOnEdge(facts, t.pred, t.succ)
+							if strings.Contains(t.word, "Rollback") {
+								c.Check(knownNilIn(fs, waitCall, false), "R2", "rollback table selected on the failed-wait edge", in.Pos(), "chosen where this Close's Wait() returned an error",
+									"the rollback events are not confined to the edge where Wait() returned an error — the decision does not reflect errors that arrive while waiting")
+							} else {
+								c.Check(knownNilIn(fs, waitCall, true), "R2", "commit table selected on the clean-wait edge", in.Pos(), "chosen where this Close's Wait() returned nil",
+									"the commit events are not confined to the edge where Wait() returned nil — a scope holding an error is committed")
+							}
+						}
+						return
+					}
+				}
 				c.Bad("R2", "commit/rollback selected by Wait", in.Pos(), "a helper called from Close fires both triples ("+ev+"); cannot certify the selection")
 				return
 			}
@@ -647,6 +683,34 @@ func ruleSharedIsolated(c *Ctx) {
 			os := Origins(st.Val, FlowOpts{})
 			ok = hasOrigin(os, func(o Origin) bool { return o.Kind == "call" && strings.Contains(o.Name, "BaseContextScope") })
 		})
+		if !ok {
+			// the defaulting may be done by a private helper that completes the parameter struct:
+			// parent.BaseContextScope() stored into a ContextScope field on the "not given" edge
+			for _, g := range append([]*ssa.Function{nc}, reachableSamePkg(nc, 2)...) {
+				gf := factsFor(g)
+				for _, ci := range Calls(g) {
+					if ci.Method == nil || ci.Method.Name() != "BaseContextScope" || ci.Value() == nil {
+						continue
+					}
+					for _, r := range *ci.Value().Referrers() {
+						st, isSt := r.(*ssa.Store)
+						if !isSt {
+							continue
+						}
+						fa, isFA := st.Addr.(*ssa.FieldAddr)
+						if !isFA || !strings.HasSuffix(fieldName(fa), ".ContextScope") {
+							continue
+						}
+						// on the edge where the given context is nil
+						for k := range gf.At(st.Block()) {
+							if bo, isB := k.v.(*ssa.BinOp); isB && (bo.Op == token.EQL || bo.Op == token.NEQ) && (isNilConst(bo.X) || isNilConst(bo.Y)) && ((bo.Op == token.EQL) == k.pol) {
+								ok = true
+							}
+						}
+					}
+				}
+			}
+		}
 		n++
 		c.Check(ok, "R7", "child defaults to the parent's own context", nc.Pos(), "ContextScope defaults to parent.BaseContextScope()", "a child without an explicit context does not share the parent's context — a failing child no longer fails the parent")
 	}
@@ -685,7 +749,21 @@ func ruleSharedIsolated(c *Ctx) {
 	ni := c.P.Func(ctxPkg, "", "NewIsolated")
 	okW := false
 	if ni != nil {
-		for _, g := range withClosures(ni) {
+		// the watcher: whatever NewIsolated (or a private helper) starts with `go`
+		var watchers []*ssa.Function
+		for _, g0 := range append([]*ssa.Function{ni}, reachableSamePkg(ni, 1)...) {
+			for _, g1 := range withClosures(g0) {
+				for _, ci := range Calls(g1) {
+					if ci.Kind != "go" {
+						continue
+					}
+					if ci.Static != nil {
+						watchers = append(watchers, ci.Static)
+					}
+				}
+			}
+		}
+		for _, g := range append(withClosures(ni), watchers...) {
 			if g == ni {
 				continue
 			}
@@ -776,10 +854,15 @@ func ruleCloseWaitsChildRegisters(c *Ctx, rule string, waitF *ssa.Function) {
 	}
 	// every child registers with its parent, whatever context it uses
 	if nc := c.P.Func(scopePkg, "", "NewChild"); nc != nil && len(nc.Params) > 0 {
-		bad := MustPass(nc, nil, func(in ssa.Instruction) bool {
+		bad := MustPass(nc, nil, ipEvent(func(in ssa.Instruction) bool {
 			ci := callInfo(in, nil, 0)
-			return ci != nil && ci.Method != nil && ci.Method.Name() == "AddTasks" && resolve(ci.Recv()) == ssa.Value(nc.Params[0])
-		})
+			if ci == nil || ci.Method == nil || ci.Method.Name() != "AddTasks" || ci.Kind != "call" {
+				return false
+			}
+			// on the parent: NewChild's own parameter, or the parameter a private helper received it in
+			_, isParam := resolve(ci.Recv()).(*ssa.Parameter)
+			return isParam
+		}, 2))
 		c.Check(len(bad) == 0, rule, "scope.NewChild registers the child with its parent on every path", nc.Pos(), "parent.AddTasks on every path",
 			"a child scope can be created without being counted by its parent (e.g. only children that share the parent's context are counted) — the parent's Wait/Close no longer waits for such a child")
 	} else {
@@ -835,4 +918,199 @@ func expandHelpers(names map[int64]string, base func(in ssa.Instruction, bind ma
 		return "(" + strings.Join(words, " | ") + ")"
 	}
 	return func(in ssa.Instruction) string { return deep(in, nil, 0) }
+}
+
+// ---- constant event tables --------------------------------------------------
+
+// globalConstElems: the elements a package-level slice variable is initialised
+// with (in the package's init function), in order; nil if it is written elsewhere.
+func globalConstElems(g *ssa.Global) []ssa.Value {
+	if g.Pkg == nil {
+		return nil
+	}
+	initF := g.Pkg.Func("init")
+	if initF == nil {
+		return nil
+	}
+	var elems []ssa.Value
+	stores := 0
+	for _, m := range g.Pkg.Members {
+		fn, ok := m.(*ssa.Function)
+		if !ok {
+			continue
+		}
+		for _, f := range withClosures(fn) {
+			eachInstr(f, func(_ *ssa.BasicBlock, _ int, in ssa.Instruction) {
+				st, ok := in.(*ssa.Store)
+				if !ok || st.Addr != ssa.Value(g) {
+					return
+				}
+				stores++
+				if f != initF {
+					elems = nil
+					stores += 10
+					return
+				}
+				if sl, ok := st.Val.(*ssa.Slice); ok {
+					elems = arrayElems(sl.X)
+				}
+			})
+		}
+	}
+	if stores != 1 {
+		return nil
+	}
+	return elems
+}
+
+// eventTables: the constant event lists a slice value can be (through phis and
+// loads of package-level tables), one word per alternative, with the phi edge
+// (block pair) that selects it when the value is a phi.
+type eventTable struct {
+	word       string
+	pred, succ *ssa.BasicBlock // selecting edge (nil: unconditional)
+}
+
+func eventTablesOf(v ssa.Value, names map[int64]string) []eventTable {
+	word := func(elems []ssa.Value) (string, bool) {
+		var ws []string
+		for _, e := range elems {
+			if mi, ok := e.(*ssa.MakeInterface); ok {
+				e = mi.X
+			}
+			k, ok := constInt(e)
+			if !ok {
+				return "", false
+			}
+			n, ok := names[k]
+			if !ok {
+				return "", false
+			}
+			ws = append(ws, n)
+		}
+		return strings.Join(ws, " "), len(ws) > 0
+	}
+	one := func(x ssa.Value) (string, bool) {
+		if ld, ok := x.(*ssa.UnOp); ok {
+			if g, ok := ld.X.(*ssa.Global); ok {
+				return word(globalConstElems(g))
+			}
+		}
+		if sl, ok := x.(*ssa.Slice); ok {
+			return word(arrayElems(sl.X))
+		}
+		return "", false
+	}
+	if p, ok := v.(*ssa.Phi); ok {
+		var out []eventTable
+		for i, e := range p.Edges {
+			w, ok := one(e)
+			if !ok {
+				return nil
+			}
+			out = append(out, eventTable{w, p.Block().Preds[i], p.Block()})
+		}
+		return out
+	}
+	if w, ok := one(v); ok {
+		return []eventTable{{w, nil, nil}}
+	}
+	return nil
+}
+
+// tableElem: v is an element read from a slice that is a constant event table.
+func tableElemSource(v ssa.Value, names map[int64]string) ssa.Value {
+	ld, ok := v.(*ssa.UnOp)
+	if !ok {
+		return nil
+	}
+	ia, ok := ld.X.(*ssa.IndexAddr)
+	if !ok {
+		return nil
+	}
+	if len(eventTablesOf(ia.X, names)) > 0 {
+		return ia.X
+	}
+	return nil
+}
+
+// tableIsFired: some element of slice S reaches Trigger (directly or as the
+// event argument of a private helper) inside a loop.
+func tableIsFired(S ssa.Value, names map[int64]string) bool {
+	if S.Referrers() == nil {
+		return false
+	}
+	for _, r := range *S.Referrers() {
+		ia, ok := r.(*ssa.IndexAddr)
+		if !ok {
+			continue
+		}
+		for _, rr := range *ia.Referrers() {
+			ld, ok := rr.(*ssa.UnOp)
+			if !ok {
+				continue
+			}
+			for _, use := range *ld.Referrers() {
+				if ci := callInfo(use.(ssa.Instruction), nil, 0); ci != nil {
+					return true
+				}
+				if mi, ok := use.(*ssa.MakeInterface); ok && mi.Referrers() != nil && len(*mi.Referrers()) > 0 {
+					return true
+				}
+			}
+		}
+	}
+	return false
+}
+
+func tableElemSourceB(v ssa.Value, names map[int64]string, bind map[*ssa.Parameter]ssa.Value) ssa.Value {
+	if x := tableElemSource(v, names); x != nil {
+		return x
+	}
+	ld, ok := v.(*ssa.UnOp)
+	if !ok {
+		return nil
+	}
+	ia, ok := ld.X.(*ssa.IndexAddr)
+	if !ok {
+		return nil
+	}
+	if p, isP := ia.X.(*ssa.Parameter); isP && bind != nil && bind[p] != nil && len(eventTablesOf(bind[p], names)) > 0 {
+		return bind[p]
+	}
+	return nil
+}
+
+// tableLoopWord: `in` is the len() that starts a loop over constant event
+// table(s) whose elements are fired: the word (or the alternatives) of the table(s).
+func tableLoopWord(in ssa.Instruction, names map[int64]string, bind map[*ssa.Parameter]ssa.Value) string {
+	call, ok := in.(*ssa.Call)
+	if !ok {
+		return ""
+	}
+	b, isB := call.Call.Value.(*ssa.Builtin)
+	if !isB || b.Name() != "len" || len(call.Call.Args) != 1 {
+		return ""
+	}
+	src := call.Call.Args[0]
+	if p, isP := src.(*ssa.Parameter); isP && bind != nil && bind[p] != nil {
+		src = bind[p]
+	}
+	tabs := eventTablesOf(src, names)
+	if len(tabs) == 0 || !tableIsFired(call.Call.Args[0], names) {
+		return ""
+	}
+	var ws []string
+	seen := map[string]bool{}
+	for _, t := range tabs {
+		if !seen[t.word] {
+			seen[t.word] = true
+			ws = append(ws, t.word)
+		}
+	}
+	sort.Strings(ws)
+	if len(ws) == 1 {
+		return ws[0]
+	}
+	return "(" + strings.Join(ws, " | ") + ")"
 }
